@@ -71,8 +71,9 @@ def run(R):
             # the default was resolved once, in the constructor: StreamingInner{<field>: max_message_size.unwrap_or(DEFAULT)}
             snb = tonic.body('codec::decode::Streaming::<T>::new')
             for bb_, i_, p_, a_, ops_ in mirlib.aggregates(snb, 'decode::StreamingInner'):
-                if lim[2] in a_['fields']:
-                    iv = strip_refs(snb.origin(ops_[a_['fields'].index(lim[2])]))
+                fo_ = agg_field_operand(snb, a_, ops_, lim[2])   # the field itself, or a field of a limits struct stored in it
+                if fo_ is not None:
+                    iv = strip_refs(snb.origin(fo_[0]))
                     oklim = (is_call(iv, name='unwrap_or') and is_limit_param(snb, iv[2][0]) and const_val(iv[2][1]) == W['default_max_recv'])
         R.check(oklim, 'C06.R1', 'limit-source', site(b, tb), 'limit = %s (configured limit or the 4 MiB default)' % show(lim))
         # everything that can follow the reject edge (path-sensitively: a helper's Err is followed through `?`)
@@ -304,6 +305,10 @@ def run(R):
         for bb, i, p, a, ops in mirlib.aggregates(sn, 'decode::StreamingInner'):
             lf = [f_ for f_ in a['fields'] if f_ == 'max_message_size'] or [f_ for f_, o_ in zip(a['fields'], ops) if term_contains(sn.origin(o_), lambda x: isinstance(x, tuple) and x and x[0] == 'arg' and re.search(LIMIT_TY, sn.ty(x[1])) is not None)]
             v = strip_refs(sn.origin(ops[a['fields'].index(lf[0])])) if lf else ('x',)
+            if v and v[0] == 'agg' and v[1].get('kind') == 'adt' and v[2]:
+                # bundled in a limits struct built here: the member that carries the configured limit
+                mem_ = [strip_refs(x_) for x_ in v[2] if term_contains(x_, lambda y: isinstance(y, tuple) and y and y[0] == 'arg' and re.search(LIMIT_TY, sn.ty(y[1])) is not None)]
+                v = mem_[0] if len(mem_) == 1 else v
             R.check(is_limit_param(sn, v) or (is_call(v, name='unwrap_or') and is_limit_param(sn, v[2][0])), 'C06.R4', 'StreamingInner.max_message_size', site(sn, bb, i), 'field %s = %s' % (lf[0] if lf else None, show(v)))
         # client
         st = tonic.body('client::grpc::Grpc::<T>::streaming::{closure#0}')
